@@ -71,6 +71,12 @@ REL_SAT = {
     "consts": {"quick": {"Full": "FALSE"}, "thorough": {"Full": "TRUE"}},
     "workers": {"quick": 4, "thorough": 16}, "timeout": {"quick": 300, "thorough": 3000},
 }
+REL_EDIT = {
+    "kind": "tlc_replay", "name": "rel_edit_edges", "module": "MCRelEdit.tla", "cfg": "MCRelEdit.cfg", "stage": "rel_edit", "coverage": False,
+    "consts": {"quick": {"Depth": 1, "MaxE": 3, "MaxR": 2}, "thorough": {"Depth": 2, "MaxE": 3, "MaxR": 2}},
+    "workers": {"quick": 8, "thorough": 12}, "timeout": {"quick": 300, "thorough": 6000},
+    "henv": {"quick": {"VERIF_WORKERS": 8}, "thorough": {"VERIF_WORKERS": 10}},
+}
 REL_ASSUMPTION = ("relation character predicates induce the 18-class partition (delimiters, identifier characters, blank, LF, other); "
                   "checked with several representatives per class")
 
@@ -183,5 +189,15 @@ PROPS = {
         "rule": "every generated structure as a lossy value; distinct = distinct structures",
         "exhaustive": {"quick": True, "thorough": True},
         "assumptions": [],
+    },
+    "C11": {
+        "claimed": True,
+        "technique": "TLA+ list-of-lists model of the field (operand origin tracked in the state); TLC enumerates every history up to the depth bound from ten base layouts; each edge replayed on a live field and compared with the model after every step",
+        "level_text": "spec/MCRelEdit.tla is the list-of-lists semantics the property names (P-layer = I-layer), over every editing operation of Relations / Entry / Relation at every index, with operands built by parsing, by the constructors and by the builder; TLC enumerates all histories to the depth bound from base fields with plain, tight, multi-line, empty-entry, trailing-comma and substitution-variable layouts; the harness replays each on a live object (edits through get_entry / get_relation handles) and after every step compares the accessor structure and the structure of the strictly re-parsed printed text with the model, that substitution variables and unaddressed entries keep their text, and that no surplus separator appears.",
+        "level_note": "bounded: histories of length <= 2 (quick) / 3 (thorough), <= 3 entries x <= 2 alternatives, 3 operand values x 3 origins; indices in range (out-of-range remove/replace unwrap by contract)",
+        "stages": [REL_EDIT],
+        "rule": "every edge of the TLC state graph = (base layout, shortest history, operation); all distinct and non-trivial",
+        "exhaustive": {"quick": True, "thorough": True},
+        "assumptions": ["the strict reader and the accessors are those of C10 (checked there)"],
     },
 }
